@@ -24,7 +24,7 @@ FUNCTIONS = ['BroadcastDiagonalOperator.__init__/_normalize_axes/_reshape_diagon
              'DiagonalOperator._check_leaf_shapes/as_matrix']
 BOUNDS = {'quick': 'leaf shapes (2,),(3,),(2,3),(3,2),(1,3),(2,1),(2,3,2) and 3 pytrees with leaves of different rank; value shapes '
                    '(2,),(3,),(1,),(2,3),(3,2),(2,1); scalar axes -4..3, all axis tuples over -3..2; strict and broadcast; seeded 700',
-          'thorough': 'all 2184 single-leaf configurations + pytrees'}
+          'thorough': 'all 2184 single-leaf configurations + 4 more leaf shapes x 8 value shapes (rank <= 3) + pytrees'}
 STUBS = []
 ASSUMPTIONS = ['real arithmetic']
 RULE = 'case = (leaf shapes, value shape, axes, strict); non-trivial = legal configuration (symbolic comparison performed); distinct keys'
@@ -48,6 +48,13 @@ def cases(tier, seed):
     if tier == 'quick':
         rnd.shuffle(out)
         out = out[:700]
+    else:
+        for xs in [(2, 2, 3), (3, 1, 2), (1,), (2, 2)]:
+            for vs in [(2,), (3,), (1,), (2, 2), (2, 3), (1, 3), (3, 1), (2, 1, 3)]:
+                specs = list(range(-4, 4)) + list(itertools.permutations(range(-3, 3), len(vs)))
+                for ax in specs:
+                    for strict in (False, True):
+                        out.append(('diag', (xs,), vs, ax, strict))
     for tr in TREES:
         for vs in [(2,), (3,), (2, 3), (1,)]:
             for ax in [0, -1, -2, 1] + list(itertools.permutations(range(-2, 2), len(vs))):
